@@ -86,7 +86,10 @@ package stubs
 //@ extern os.Open
 //@   ensures result1 == nil ==> result0 != nil && fsExists(name) && fileOf(result0) == name
 //@   ensures result1 != nil ==> result0 == nil
-//@   ensures !fsExists(name) ==> result1 != nil
+// a name that does not exist is reported as such, and only such a name is
+// (other failure modes of open(2) on a missing name are not modelled)
+//@   ensures !fsExists(name) ==> result1 != nil && errIs(result1, io_fs.ErrNotExist)
+//@   ensures result1 != nil && errIs(result1, io_fs.ErrNotExist) ==> !fsExists(name)
 
 //@ extern (*os.File).Close
 //@   params f
